@@ -60,17 +60,22 @@ def getcaller(frame: types.FrameType = None) -> types.FrameType:
     while frame.f_back:
         frame = frame.f_back
         module = inspect.getmodule(frame)
-        if module and module.__name__.startswith(PKG_NAME):
+        if module and _ispkg(module.__name__):
             continue
 
+        # (The package itself, not any name or path which merely contains its name.)
         code = frame.f_code
-        if getattr(code, "co_qualname", "").startswith(PKG_NAME):
+        if _ispkg(getattr(code, "co_qualname", "")):
             continue
-        if PKG_NAME in code.co_filename:
+        if PKG_NAME in code.co_filename.replace("\\", "/").split("/"):
             continue
         return frame
 
     return frame
+
+
+def _ispkg(name: str) -> bool:
+    return name == PKG_NAME or name.startswith(PKG_NAME + ".")
 
 
 PKG_NAME: Final[str] = __name__.split(".", maxsplit=1)[0]
